@@ -18,7 +18,7 @@ ASAN_ENV = {
 
 def hx(b):
     if isinstance(b, str):
-        b = b.encode("utf-8", "surrogateescape")
+        b = b.encode("latin-1")     # program texts are byte strings; chr(n) stands for byte n
     return b.hex()
 
 
